@@ -256,7 +256,8 @@ func replayRPC(args []string) error {
 	binProbe := fs.Bool("binprobe", false, "also ask for group values that are not valid UTF-8 (C13)")
 	fs.Parse(args)
 	rng := rand.New(rand.NewSource(*seed))
-	dict := identDictU(rng, 3, true)
+	// adversarial dictionary: "a"+"b" = "ab"+"" (identifier column names, UTF-8 values)
+	dict := vx.AmbiguousDict(4, 4)
 	dir := vx.Scratch("replayrpc")
 	defer os.RemoveAll(dir)
 	rep := &vx.Report{Notes: map[string]any{}}
@@ -452,7 +453,12 @@ func randHExpr(rng *rand.Rand, depth int) *HExpr {
 		return &HExpr{Op: "not", E: randHExpr(rng, depth-1)}
 	default:
 		e := &HExpr{Op: []string{"and", "or"}[rng.Intn(2)]}
-		for k := rng.Intn(4); k > 0; k-- {
+		k := rng.Intn(4)
+		if rng.Intn(12) == 0 {
+			k = []int{8, 15, 16, 17, 31, 32, 33, 40}[rng.Intn(8)] // operand counts around powers of two
+			depth = 1
+		}
+		for ; k > 0; k-- {
 			e.Es = append(e.Es, randHExpr(rng, depth-1))
 		}
 		return e
@@ -524,6 +530,7 @@ func recordRPC(args []string) error {
 	}
 	defer srv.stop()
 	w.Emit(map[string]any{"ev": "Setup", "rows": rowsToJSON(rows)})
+	sweep := 0
 	for i := 0; i < *n; i++ {
 		req := &proto.QueryRequest{}
 		for k := rng.Intn(4); k > 0; k-- {
@@ -532,6 +539,19 @@ func recordRPC(args []string) error {
 				q.GB = append(q.GB, 1+rng.Intn(3))
 			}
 			req.Queries = append(req.Queries, toPBQuery(dict, q, rng, true))
+		}
+		if i%3 == 1 && sweep <= 3*41 {
+			// systematic operand counts 0..40 for OR, AND and NOT(OR)
+			k := sweep / 3
+			e := &HExpr{Op: []string{"or", "and", "or"}[sweep%3]}
+			for j := 0; j < k; j++ {
+				e.Es = append(e.Es, &HExpr{Op: "eq", Col: 1 + j%2, Val: 1 + j%3})
+			}
+			if sweep%3 == 2 {
+				e = &HExpr{Op: "not", E: e}
+			}
+			sweep++
+			req.Queries = []*proto.Query{toPBQuery(dict, rpcQuery{E: e}, rng, true)}
 		}
 		if i%10 == 9 { // deep nesting
 			e := &proto.Query_Expression{Value: &proto.Query_Expression_Eq{Eq: &proto.Query_Expression_Equal{Column: dict.Col(1), Value: dict.Val(1)}}}
